@@ -67,6 +67,8 @@ def _design_plugin():
                 out[..., ~np.asarray(self._mask, dtype=bool)] = 0.0
             if self._opts.get("retain"):
                 self._table = out
+                if self._opts["retain"] == "read-only":
+                    out.setflags(write=False)
             return out
 
     class DesignPlugin(SamplerPlugin):
